@@ -1,9 +1,10 @@
 import MpfVerif.Lemmas.Template
+import MpfVerif.Lemmas.CondDispatch
 import MpfVerif.Gen.OpTables
 /-!
 # C16 — templates evaluate like Python and never act on stale values
 
-Property theorems only (model: `Model/Template.lean`; `Gen/OpTables.lean` is regenerated from
+Property theorems only (models: `Model/Template.lean`, `Model/CondDispatch.lean`; `Gen/OpTables.lean` is regenerated from
 `mpf/core/placeholder_manager.py` on every run).
 -/
 namespace MpfVerif.C16
@@ -177,6 +178,111 @@ example : (eval true { vars := [(("players", ["1", "score"]), .int 30)] }
 /-- non-vacuity of the text theorems: `a={machine.a:d}` with `machine.a = None` formats as `a=0` and subscribes `machine.a` -/
 example : (textEval (eval true {}) [.lit "a=", .fld (.attr (.name "machine") "a") "d"]).out = .ok (.str "a=0") ∧
     (textEval (eval true {}) [.lit "a=", .fld (.attr (.name "machine") "a") "d"]).reads = [("machine", ["a"])] := by
+  decide
+
+
+/-! ## conditional event handlers and conditional config-player entries (`Model/CondDispatch.lean`) -/
+open MpfVerif.CondDispatch
+
+/-- **Turns are serial**: dispatching a post over `pre ++ post` is dispatching over `pre` and then, from the world `pre`
+left (values changed by the handlers that ran, kwargs updated by the dicts relay handlers returned, the log, whether the
+post was stopped), over `post`.  There is no other channel from one handler's turn to the next: in particular no verdict
+computed earlier in the post is carried along. -/
+theorem dispatch_is_serial (k : Kind) (w : World) (pre post : List Handler) :
+    dispatch k w (pre ++ post) = dispatch k (dispatch k w pre) post := dispatch_append' k w pre post
+
+/-- **A conditional handler runs iff its condition is true on the values at ITS turn**: for every post kind, every world,
+every handler list `pre ++ h :: post` of the event (ids distinct), `h` is called during the post iff the post is still
+running when its turn comes and its condition — evaluated over the machine / player / settings / device values *as the
+handlers before it left them* and the kwargs as relayed so far, overridden by its own kwargs — is true.  (The condition of
+`none` is the unconditional handler.) -/
+theorem handler_runs_iff_condition_true_at_its_turn (k : Kind) (w : World) (pre post : List Handler) (h : Handler)
+    (h0 : h.id ∉ w.ran) (h1 : h.id ∉ pre.map (·.id)) (h2 : h.id ∉ post.map (·.id)) :
+    h.id ∈ (dispatch k w (pre ++ h :: post)).ran ↔
+      ((dispatch k w pre).st = .running ∧ verdict (condEnv (dispatch k w pre) h.kw) h.cond = .yes) := by
+  rw [dispatch_append', dispatch_cons]
+  obtain ⟨r0, e0, m0⟩ := ran_prefix k w pre
+  obtain ⟨r, e, m⟩ := ran_prefix k (stepH k (dispatch k w pre) h) post
+  rw [e, stepH_ran, e0]
+  have n0 : h.id ∉ r0 := fun x => h1 (m0 _ x)
+  have n1 : h.id ∉ r := fun x => h2 (m _ x)
+  split
+  · next c => simp [c]
+  · next c => simp [h0, n0, n1, c]
+
+/-- the verdict of a condition is the truthiness of the value Python's semantics gives the expression (all `and`/`or`
+operands evaluated); a missing name, a type error, `None` and an absent location are `False` -/
+theorem condition_verdict_is_pythons (env : Env) (e : Expr) :
+    verdict env (some e) = .yes ↔ ∃ v, py false false env e = .ok v ∧ truthy v = true := verdict_yes_iff env e
+
+/-- the two together — the statement of the property's last clause for event handlers: a handler registered as
+`event{e}` is called iff Python's value of `e` over the values current at its turn is true -/
+theorem conditional_handler_acts_on_current_values (k : Kind) (w : World) (pre post : List Handler) (h : Handler) (e : Expr)
+    (hc : h.cond = some e) (h0 : h.id ∉ w.ran) (h1 : h.id ∉ pre.map (·.id)) (h2 : h.id ∉ post.map (·.id)) :
+    h.id ∈ (dispatch k w (pre ++ h :: post)).ran ↔
+      ((dispatch k w pre).st = .running ∧
+        ∃ v, py false false (condEnv (dispatch k w pre) h.kw) e = .ok v ∧ truthy v = true) := by
+  rw [handler_runs_iff_condition_true_at_its_turn k w pre post h h0 h1 h2, hc, condition_verdict_is_pythons]
+
+/-- a handler whose condition is false at its turn leaves no trace: values, kwargs, log and status are unchanged -/
+theorem skipped_handler_has_no_effect (k : Kind) (w : World) (h : Handler) (hv : verdict (condEnv w h.kw) h.cond = .no) :
+    stepH k w h = w := by
+  unfold stepH
+  split
+  · rfl
+  · rw [hv]
+
+/-- **Conditional config-player entries** (`variable_player: event: var{condition}: …`, `event_player: event: target{condition}`):
+the items of one entry are decided one after the other, each on the values the items before it left (`a{machine.a==0}`
+setting `machine.a` is seen by the next item's condition); an item acts iff its condition is true there. -/
+theorem entry_items_decided_on_current_values (hk : List (String × Val)) (w : World) (pre post : List Step) (s : Step) :
+    (pre ++ s :: post).foldl (stepS hk) w = post.foldl (stepS hk) (stepS hk (pre.foldl (stepS hk) w) s) ∧
+    (∀ w' : World, w'.st = .running → verdict (condEnv w' hk) s.cond = .yes → stepS hk w' s = applyAct w' s.act) ∧
+    (∀ w' : World, verdict (condEnv w' hk) s.cond = .no → stepS hk w' s = w') := by
+  refine ⟨by simp [List.foldl_append], ?_, ?_⟩
+  · intro w' hr hv
+    unfold stepS
+    rw [if_neg (by simp [hr]), hv]
+  · intro w' hv
+    unfold stepS
+    split
+    · rfl
+    · rw [hv]
+
+/-- registering a handler (`add_handler`: append + stable sort by priority, descending) keeps the list the dispatcher
+walks ordered by priority, so "its turn" is: after every handler of higher priority and after the earlier-registered
+handlers of the same priority -/
+theorem handlers_stay_priority_ordered (h : Handler) (hs : List Handler) (s : Sorted hs) : Sorted (insertH h hs) :=
+  insertH_sorted h hs s
+
+/-- non-vacuity (the seeded `condition-memo-per-post` scenario): two handlers registered as `ev{machine.a == 0}`; the first
+sets `machine.a` to 1.  Only the first runs — although at the start of the post the condition of the second was true, so a
+verdict memoised per post would have run it on a stale value. -/
+example :
+    let c : Expr := .cmp "Eq" (.attr (.name "machine") "a") (.const (.int 0))
+    let w : World := { env := { vars := [(("machine", ["a"]), .int 0)] } }
+    let h0 : Handler := { id := 0, prio := 2, cond := some c, steps := [{ act := .set ("machine", ["a"]) (.int 1) }] }
+    let h1 : Handler := { id := 1, prio := 1, cond := some c }
+    (dispatch .post w (insertH h1 (insertH h0 []))).ran = [0] ∧ verdict (condEnv w h1.kw) h1.cond = .yes := by
+  decide
+
+/-- non-vacuity (relay): the first handler relays `x = 0`; the second, guarded by `x > 0`, is skipped; and a
+`variable_player` entry whose first item sets `machine.a` makes the second item's condition false -/
+example :
+    let c : Expr := .cmp "Gt" (.name "x") (.const (.int 0))
+    let h0 : Handler := { id := 0, prio := 2, cond := some c, ret := [("x", .int 0)] }
+    let h1 : Handler := { id := 1, prio := 1, cond := some c }
+    (dispatch .relay { kw := [("x", .int 5)] } [h0, h1]).ran = [0] ∧
+    (dispatch .post { kw := [("x", .int 5)] } [h0, h1]).ran = [0, 1] := by
+  decide
+
+example :
+    let c : Expr := .cmp "Eq" (.attr (.name "machine") "a") (.const (.int 0))
+    let w : World := { env := { vars := [(("machine", ["a"]), .int 0), (("machine", ["n0"]), .int 0)] } }
+    let h : Handler := { id := 0, cond := some c, steps := [{ cond := some c, act := .set ("machine", ["a"]) (.int 1) },
+                                                             { cond := some c, act := .add ("machine", ["n0"]) 1 }] }
+    (dispatch .post w [h]).env.look ("machine", ["n0"]) = some (.int 0) ∧
+    (dispatch .post w [h]).env.look ("machine", ["a"]) = some (.int 1) := by
   decide
 
 end MpfVerif.C16
